@@ -436,7 +436,7 @@ func TestCheck(t *testing.T) {
 		defer dl.stop()
 	}
 
-	nWorlds := r.N(30, 1500)
+	nWorlds := r.N(30, 1000)
 	nProbes := r.N(len(scenarios)+nNoiseNames+4, len(scenarios)+nNoiseNames+20)
 	cfgIdx := 0
 	for wi := 0; wi < nWorlds; wi++ {
